@@ -29,7 +29,6 @@ import (
 	"os"
 	"strings"
 
-	"github.com/ontio/ontology-crypto/keypair"
 	s "github.com/ontio/ontology-crypto/signature"
 	"github.com/ontio/ontology/common"
 	"github.com/ontio/ontology/common/log"
@@ -47,6 +46,7 @@ type Input struct {
 	Raw    string `json:"raw"`              // transaction bytes
 	Expect string `json:"expect,omitempty"` // accept | reject | "" (only O1/O4 apply)
 	Base   string `json:"base,omitempty"`   // for mutants: the accepted transaction they were derived from
+	Valid  string `json:"valid,omitempty"`  // a valid variant of the same plan (for the object re-use history)
 	Pos    int    `json:"pos,omitempty"`
 	Note   string `json:"note,omitempty"`
 }
@@ -59,6 +59,8 @@ type Drv struct {
 	After func(in Input, raw []byte, o Outcome, tables string, hashCoq string, views []SetView)
 	// NoCase suppresses the C16 correspondence cases and oracle (C17 reuses the generators)
 	NoCase bool
+
+	specCache map[string]specVerdict
 }
 
 func panicClass(msg string) string {
@@ -137,21 +139,9 @@ func (d *Drv) justify(in Input, o Outcome, views []SetView) {
 				map[string]int{"set": si, "distinct_verified": got, "m": m}, "rejected")
 			return
 		}
-		var addr common.Address
-		var err error
-		p, msg := hx.Recover(func() {
-			if n == 1 {
-				addr = types.AddressFromPubKey(v.Keys[0].Pub)
-			} else {
-				var pubs []keypair.PublicKey
-				for _, k := range v.Keys {
-					pubs = append(pubs, k.Pub)
-				}
-				addr, err = types.AddressFromMultiPubKeys(pubs, m)
-			}
-		})
-		if p || err != nil {
-			c.Fail("accepted-no-address", "accepted although the set has no address", in, fmt.Sprint(msg, err), "an address")
+		addr, okA := SpecAddress(v.Keys, m)
+		if !okA {
+			c.Fail("accepted-no-address", "accepted although the set has no address", in, si, "an address")
 			return
 		}
 		want[addr] = true
@@ -245,6 +235,7 @@ func (d *Drv) DoTx(in Input, raw []byte, extra []*Key) (o Outcome, decoded bool)
 	if o.Accepted || strings.HasPrefix(o.Class, "reject:VE") && !strings.HasPrefix(o.Class, "reject:VEGetSig") {
 		c.Nontrivial(in.Raw)
 	}
+	d.Histories(in, raw, o)
 	if len(raw) < 400 {
 		c.Sample(map[string]interface{}{"kind": in.Kind, "expect": in.Expect, "outcome": o.Class, "sets": len(o.Tx.Sigs), "len": len(raw)})
 	}
